@@ -203,6 +203,7 @@ type c08Inc struct {
 	terminatedBy   int // ... that successor (-1: none)
 	gotCancelOf    int // whose cancel function our TerminatePreviousLocalReceiver found (-1: none)
 	addInUnregOf   []int // our addLocalShard ran while these incarnations sat between the two deletes of UnregisterShard
+	wipedBySecond  bool  // ... and the rest of UnregisterShard of one of them then removed our localShards entry
 	setInCleanupOf []int // we registered cancel func / active receiver while these sat between their context check and their removals
 }
 
@@ -499,6 +500,9 @@ func (w *c08World) release(h *c08Hold) {
 			a, b := before[c], w.view(c)
 			chk := func(reg string, x, y int) {
 				if x >= 0 && x != h.inc && y != x {
+					if reg == "localShards" && h.pos == "UnregisterShard.afterUnlock" && c08Has(w.incs[x].addInUnregOf, h.inc) {
+						w.incs[x].wipedBySecond = true
+					}
 					w.violation(fmt.Sprintf("clean-up step of incarnation %d at %s removed the %s entry of shard %d owned by incarnation %d", h.inc, h.pos, reg, c, x),
 						w.attribute(reg, x, h))
 				}
@@ -522,8 +526,8 @@ func (w *c08World) attribute(reg string, victim int, h *c08Hold) map[string]any 
 	tag := func(f string) map[string]any { return map[string]any{"finding": f} }
 	switch reg {
 	case "localShards":
-		if len(v.addInUnregOf) > 0 && (h == nil || (h.pos == "UnregisterShard.afterUnlock" && c08Has(v.addInUnregOf, h.inc))) {
-			return tag("C08-unregister-double-delete")
+		if v.wipedBySecond && (h == nil || (h.pos == "UnregisterShard.afterUnlock" && c08Has(v.addInUnregOf, h.inc))) {
+			return tag("C08-unregister-double-delete") // repaired: not a listed finding any more, its return is a VIOLATION
 		}
 	case "localReceiverCancelFuncs", "activeReceivers":
 		for _, gi := range v.setInCleanupOf {
@@ -1030,7 +1034,11 @@ func c08PanicLine(stderr string) string {
 }
 
 func TestC08(t *testing.T) {
-	e := NewEnv(t, "registry")
+	engine := "registry"
+	if os.Getenv("VERIF_C08_MODEL") == "asis" { // a tree before the fixes of the second delete in UnregisterShard and of the unguarded replay send
+		engine = "registry-asis"
+	}
+	e := NewEnv(t, engine)
 	defer e.Close(t)
 	var cases [][]string
 	if rc := e.ReplayLines(t); rc != nil {
